@@ -105,7 +105,8 @@ def gen_program(rng, arch, nstmt, vocab, incbin):
         elif code:
             form, bs = rng.choice(vocab)
             m = asmk.NUMRE.search(form)
-            if m and rng.random() < 0.3 and arch != "6502" and form.split()[0] not in ("bit", "res", "set", "rst", "im"):
+            big = m and int(m.group(0).replace("$", "0x"), 0) > 255
+            if m and rng.random() < (0.3 if arch != "6502" else 0.6) and (arch != "6502" or (big and "(" not in form)) and form.split()[0] not in ("bit", "res", "set", "rst", "im"):
                 # the operand is a constant defined at the end of the file
                 oname = "opnd%d" % len(lines)
                 late.append("@defn %s, %s" % (oname, m.group(0)))
